@@ -4,7 +4,7 @@
    model theorems (proved in EFModel.C19_Return1D_proofs / EFModel.C19_Commit). *)
 From Coquelicot Require Import Coquelicot.
 From Coq Require Import Reals List Lra Bool.
-From EFModel Require Import C19_Return1D C19_Return1D_proofs C19_Commit C19_Lift C19_PlaneStress C19_Radial C19_Tangent C19_Units.
+From EFModel Require Import C19_Return1D C19_Return1D_proofs C19_Commit C19_Lift C19_PlaneStress C19_Radial C19_Tangent C19_Units C19_KuhnTucker C19_Tangent2.
 From EFP Require Import Gen_C19.
 Import List ListNotations.
 Open Scope R_scope.
@@ -296,6 +296,64 @@ Theorem C19_radial_unit_invariance : forall lam H sy tol dt p s ps,
         = small_v Rops sy tol true (resid Rops (fun x => H * x) None dt sy (mkPoint ps p) th).
 Proof. intros; apply (radial_unit_invariance lam); assumption. Qed.
 Print Assumptions C19_radial_unit_invariance.
+
+(* consistent tangent for SEVERAL eigen-pairs (two, equal eigenvalues), linear hardening, converged
+   state: every partial derivative of the returned eigen-stress (s1, s2) with respect to the trial
+   components (y1, y2) is the corresponding entry d*delta_ij + a_i*b_j of the translated Tangent core *)
+Theorem C19_tangent_is_jacobian_2d : forall lam H sy dt p,
+    0 < lam -> 0 <= H -> 0 < sy + H * p ->
+    forall y1 y2, 0 < y1 * y1 + y2 * y2 -> 0 < Ac H sy (ps2 lam y1 y2) p ->
+    is_derive (fun t => s1 lam H sy p t y2) y1 (entry lam H sy dt p true 0 0 y1 y2) /\
+    is_derive (fun t => s2 lam H sy p t y2) y1 (entry lam H sy dt p false 1 0 y1 y2) /\
+    is_derive (fun t => s1 lam H sy p y1 t) y2 (entry lam H sy dt p false 0 1 y1 y2) /\
+    is_derive (fun t => s2 lam H sy p y1 t) y2 (entry lam H sy dt p true 1 1 y1 y2).
+Proof. intros; apply tangent_is_jacobian_2d; assumption. Qed.
+Print Assumptions C19_tangent_is_jacobian_2d.
+
+(* discrete Kuhn-Tucker conditions at the returned state, every eigen-structure *)
+Theorem C19_kuhn_tucker_flow : forall Rh dRh dt sy tol start, (forall p0 f, 0 <= start p0 f) ->
+    forall rate maxIter pts,
+    Forall (fun q =>
+              let pt := st_pt q in let th := st_th q in
+              0 <= dGam Rops pt th /\
+              (0 < dGam Rops pt th -> 0 < ftrial Rops Rh sy pt) /\
+              (ftrial Rops Rh sy pt <= 0 ->
+               dGam Rops pt th = 0 /\ p_new Rops pt th = pOld pt /\ f_new Rh sy pt th = ftrial Rops Rh sy pt))
+           (solve Rops Rh dRh rate dt sy tol start maxIter pts).
+Proof. exact kuhn_tucker_flow. Qed.
+Print Assumptions C19_kuhn_tucker_flow.
+
+Theorem C19_kuhn_tucker_admissible : forall Rh dRh dt sy tol start, (forall p0 f, 0 <= start p0 f) ->
+    forall maxIter pts, 0 <= tol * sy ->
+    let st := solve Rops Rh dRh None dt sy tol start maxIter pts in
+    exit_small Rops Rh None dt sy tol st = true ->
+    Forall (fun q =>
+              let pt := st_pt q in let th := st_th q in
+              f_new Rh sy pt th <= tol * sy /\
+              Rabs (dGam Rops pt th * f_new Rh sy pt th) <= dGam Rops pt th * (tol * sy)) st.
+Proof. exact kuhn_tucker_admissible. Qed.
+Print Assumptions C19_kuhn_tucker_admissible.
+
+(* frame condition: the committed state changes only at Save_Iter / Set_Iter / mesh replacement *)
+Theorem C19_only_commit_ops_change_committed :
+  forall (Strain Stress Tangent State Group : Type) (zeros : State)
+         (integrate : Strain -> State -> Stress * Tangent * State * bool)
+         (s : sim State Group) (o : op Strain Group) g,
+    committed State Group zeros (exec Strain Stress Tangent State Group zeros integrate s o) g
+    <> committed State Group zeros s g ->
+    o = Save Strain Group \/ (exists i, o = SetIter Strain Group i) \/ o = ResetMesh Strain Group.
+Proof. exact only_commit_ops_change_committed. Qed.
+Print Assumptions C19_only_commit_ops_change_committed.
+
+Theorem C19_committed_fixed_since_last_commit :
+  forall (Strain Stress Tangent State Group : Type) (zeros : State)
+         (integrate : Strain -> State -> Stress * Tangent * State * bool)
+         (pre post : list (op Strain Group)) (s : sim State Group),
+    Forall (no_commit Strain Group) post ->
+    forall g, committed State Group zeros (run Strain Stress Tangent State Group zeros integrate s (pre ++ post)) g
+              = committed State Group zeros (run Strain Stress Tangent State Group zeros integrate s pre) g.
+Proof. exact committed_fixed_since_last_commit. Qed.
+Print Assumptions C19_committed_fixed_since_last_commit.
 
 Theorem C19_commit_only_on_save :
   forall (Strain Stress Tangent State Group : Type) (zeros : State)
